@@ -1,12 +1,12 @@
 """C19 configuration for /verif/check."""
 PROP = dict(
         module='kernel', pkg='device/video/console', pkgname='console', harness=['console/c19_test.go'],
-        n=dict(quick=300, thorough=6000),
+        n=dict(quick=300, thorough=3000),
         anchors='C19.json', expr_imports=['Firefly.Gen.C19'],
         extra_runs=[dict(module='kernel', pkg='hal', pkgname='hal', harness=['hal/c19hal_test.go'],
                          extra_overlay={'kernel/device/video/console/zz_verif_c19_export.go': 'console/c19_export.go',
                                         'kernel/multiboot/zz_verif_c19_export.go': 'multiboot/c19_export.go'},
-                         test='TestVerifC19Hal', n=dict(quick=20, thorough=300))],
+                         test='TestVerifC19Hal', n=dict(quick=20, thorough=100))],
         nontrivial=r'^[tv][wfs] .*\| .*\d:[0-9a-f]',
         rule='one evaluation = one trace line: a Write / Fill / Scroll (or SetFont, SetLogo, packColor, fbOffset, checksum) '
              'call on the real VgaTextConsole / VesaFbConsole whose framebuffer lies inside a pattern-filled host buffer, '
